@@ -51,7 +51,9 @@ driver raises, or is passed over — patch 06, the current tree).
     `substitute_wiring` — the pin-by-pin wiring lemma (host line at instance pin `k` is connected to what port `k` of the
     implementation was connected to, through `node_map`) and the frame (all other host nodes and line ends untouched);
     `substitute_sem_partial` — every host line not driven by the cell keeps its equation literally (all regular uses, no
-    side condition on the implementation).
+    side condition on the implementation).  `substitute_wiring` and `substitute_sem_partial` carry the hypothesis `denseB` (no
+    copied fork had a `None` gap to be squeezed out by the loop added with the repair of D30, which renumbers driver pins;
+    true whenever the forks of the implementation are gap-free).
   - **`substitute_sem`** — the FULL semantic statement for `substitute` (vocabulary: Model/SubstSem.lean, Proofs/SubstSem1.lean),
     for every well-formed host and implementation, every use in which nothing is removed (`keepsAllB`: designated cell
     exists, no connected-but-ignored input pin, every unconnected output is driven by a node that stays; this contains
@@ -302,19 +304,25 @@ theorem substitute_regular (h m h' : NNet) (c : Nat) (hw : h.wf = true) (hc : c 
       h'.kindNames = h.kindNames.set c ((m.net.node dn).kind, h.names.getD c "") ++ addedKN m (h.names.getD c "") (some dn) := by
   have w := WF.of_wf hw
   have li : LI h := ⟨w.names, w.io⟩
-  obtain ⟨sh, dn, map, hs, hd, hcore, _⟩ := substitute_regular_eq h c m h' hr he
+  obtain ⟨sh, dn, map, h5, hs, hd, hcore, eh', _⟩ := substitute_regular_eq' h c m h' hr he
   have p1 := phase1_some_obs h c m dn li hc
   rw [← hd] at p1
-  have o := substituteCore_obs h c m sh hs h' map [] hcore p1.2.2.1 p1.2.2.2
-  obtain ⟨h2, net4, ren, net5, _, _, hfold, hci, hco, e⟩ := substituteCore_inv h c m sh hs h' map [] hcore
+  have o := substituteCore_obs h c m sh hs h5 map [] hcore p1.2.2.1 p1.2.2.2
+  obtain ⟨h2, net4, ren, net5, _, _, hfold, hci, hco, e⟩ := substituteCore_inv h c m sh hs h5 map [] hcore
+  -- the loop that makes the copied forks dense only re-wires pins
+  have pd := pinsOnly_densify h5.net map
+  have od := obs_of_pinsOnly h5 { h5 with net := densify h5.net map } pd rfl
   have hio' : h'.net.io = h.net.io := by
     have f := foldlM_addImplNode_obs m _ sh.des _ _ _ hfold p1.2.2.1 p1.2.2.2
     have p3 := pinsOnly_phase3 m map h2
     have p4 := pinsOnly_connectIns m map _ _ _ hci
     have p5 := pinsOnly_connectOuts m map _ _ _ hco
+    subst eh'
+    show (densify h5.net map).io = h.net.io
+    rw [pd.2]
     subst e
     rw [(p3.trans (p4.trans p5)).2, f.2.2.2.1, hd]; rfl
-  exact ⟨sh, dn, hs, hd, hio', by rw [o.1, p1.1, hd]⟩
+  exact ⟨sh, dn, hs, hd, hio', by subst eh'; rw [od.1, o.1, p1.1, hd]⟩
 
 /-- the documented case in which `substitute` keeps `[n.name for n in c.s_nodes]`, names AND order: regular use, the
     designated cell is of the same class as the cell it replaces (flip-flop / latch / neither, as `s_nodes` reads the
@@ -348,9 +356,13 @@ theorem substitute_snames (h m h' : NNet) (c : Nat) (hw : h.wf = true) (hc : c <
     line, or pin 0 of the fork created for a port with several readers); the host line at output pin `k` is driven from
     what drove output `k` of the implementation (`outTarget`: the driver pin of the port's line, or the next output of
     the fork created for an output that is also read internally).  Frame: all other nodes of the host keep their record,
-    all other lines keep driver side / reader side. -/
+    all other lines keep driver side / reader side.
+    `denseB` (a Boolean function of host, cell and implementation): no copied fork has a `None` gap after the connecting loops — since the
+    repair of D30 `substitute` makes such forks dense again and renumbers the driver pins of their lines, so the pin
+    positions below are the implementation's only when nothing had to be squeezed (true whenever the forks of the
+    implementation are gap-free, as in every library cell). -/
 theorem substitute_wiring (h m h' : NNet) (c : Nat) (hw : h.wf = true) (hc : c < h.net.nodes.size)
-    (hr : regularB h c m = true) (he : substitute h c m = some h') :
+    (hr : regularB h c m = true) (hdense : denseB h c m = true) (he : substitute h c m = some h') :
     ∃ sh map, implShape m = some sh ∧
       (∀ k x, map.getD k none = some x → x = c ∨ h.net.nodes.size ≤ x) ∧
       (∀ k ll, (h.net.node c).ins.getD k none = some ll → ∃ inn r rp, sh.inPorts[k]? = some inn ∧
@@ -363,7 +375,7 @@ theorem substitute_wiring (h m h' : NNet) (c : Nat) (hw : h.wf = true) (hc : c <
       (∀ l, l < h.net.lines.size → (h.net.line l).reader ≠ c →
         (h'.net.line l).reader = (h.net.line l).reader ∧ (h'.net.line l).rpin = (h.net.line l).rpin) := by
   have w := WF.of_wf hw
-  obtain ⟨sh, dn, map, hs, hd, hcore, hni⟩ := substitute_regular_eq h c m h' hr he
+  obtain ⟨sh, dn, map, hs, hd, hcore, hni⟩ := substitute_regular_eq h c m h' hr hdense he
   obtain ⟨fr, hm, win, wout⟩ := substituteCore_wire h c m sh hs w hc dn hd hni h' map [] hcore
   refine ⟨sh, map, hs, hm, win, wout, fr.node, ?_, ?_⟩
   · intro l hl hne
@@ -579,11 +591,11 @@ theorem consOff_consistent {α : Type _} [BEq α] [LawfulBEq α] (nn : NNet) (hw
     and every assignment, `lineEq` of the result at that line equals `lineEq` of the host (same driver, same pin, same
     driver record, hence same gate function of the same in-lines) -/
 theorem substitute_sem_partial {α : Type _} (h m h' : NNet) (c : Nat) (hw : h.wf = true) (hc : c < h.net.nodes.size)
-    (hr : regularB h c m = true) (he : substitute h c m = some h')
+    (hr : regularB h c m = true) (hdense : denseB h c m = true) (he : substitute h c m = some h')
     (sp : Nat → Option Nat) (z : α) (neg : α → α) (prim : String → α → α → α → α → α) (a : Nat → α) (v : Nat → α)
     (l : Nat) (hl : l < h.net.lines.size) (hd : (h.net.line l).driver ≠ c) :
     lineEq h'.net sp z neg prim a v l = lineEq h.net sp z neg prim a v l := by
-  obtain ⟨_, _, _, _, _, _, hnode, hdrv, _⟩ := substitute_wiring h m h' c hw hc hr he
+  obtain ⟨_, _, _, _, _, _, hnode, hdrv, _⟩ := substitute_wiring h m h' c hw hc hr hdense he
   have hb := (WF.of_wf hw).back l hl
   exact lineEq_frame h.net h'.net sp z neg prim a v l (hdrv l hl hd).1 (hdrv l hl hd).2 (hnode _ hb.1 hd)
 
@@ -709,7 +721,7 @@ def exHost : NNet :=
 /-- hypotheses of `substitute_ports` / `_state_perm` / `_regular` / `_snames` / `_wiring` / `_sem_partial` are satisfiable:
     the designated cell is `X=INV1` (node 6 of the implementation); the result is the dump the real code produces
     (harness/c10.py compares such dumps on random inputs) -/
-example : exHost.wf = true ∧ exHost.net.io.contains 2 = false ∧ regularB exHost 2 exImpl = true ∧
+example : exHost.wf = true ∧ exHost.net.io.contains 2 = false ∧ regularB exHost 2 exImpl = true ∧ denseB exHost 2 exImpl = true ∧
     (implShape exImpl).map (fun sh => (sh.inPorts, sh.outLines, sh.des)) = some ([0, 1], [3, 5], some 6) ∧
     -- the class condition of `substitute_snames`
     hasSub "dff" (exImpl.net.node 6).kind.toLower = hasSub "dff" (exHost.net.node 2).kind.toLower ∧
